@@ -2,6 +2,7 @@ import NodisVerif.Proofs.C08Others
 import NodisVerif.Proofs.C08Tie
 import NodisVerif.Proofs.C16Handlers
 import NodisVerif.Proofs.GateInv
+import NodisVerif.Proofs.GateProgRun
 /-
   C08 — MULTI/EXEC runs the queue exactly once, in order, isolated — or not at all.
 
@@ -440,5 +441,95 @@ end gate
 /- UNPROVED: nothing.  Out of the model's scope (said above, not a gap of the proofs): callers of the
    embedded API are not subject to the gate; disconnects are modelled as "the connection sends nothing
    more". -/
+
+/-! ### The CODE around the gate (Model/GateProg.lean: the closure of `Serve`, `execCommand`, `exec`, `multi`, `discard`,
+  `watchKey`, `unwatchAll`, `signalModifiedKey`, `Watch`, `UnWatch`, `blockingPop`'s `look`) as a program model.
+  The theorems above are about the protocol; these say that the program follows it, under every schedule of any
+  number of connections and embedded callers, and transfer the protocol theorems to the program. -/
+section gateprog
+open NodisVerif.Gate
+
+/-- For every schedule of any number of connections and embedded callers, the events the program emits at its
+    verifTrace sites are a run of the gate protocol, and the state the protocol reaches is the program's own
+    (`R`: same serving goroutines, same open transactions, the reported holders of execMu). -/
+theorem gateprog_refines_gate (sch : List (GateProg.Tid × GateProg.Choice)) :
+    ∃ gs, Gate.run {} (GateProg.run {} sch).2 = some gs ∧ GateProg.R (GateProg.run {} sch).1 gs :=
+  let ⟨gs, h, _, hr⟩ := GateProg.reach_inv sch; ⟨gs, h, hr⟩
+
+/-- the invariant of the program model holds in every reachable configuration -/
+theorem gateprog_invariant (sch : List (GateProg.Tid × GateProg.Choice)) : GateProg.Inv (GateProg.run {} sch).1 :=
+  let ⟨_, _, hi, _⟩ := GateProg.reach_inv sch; hi
+
+/-- `exec_gate_exclusive` for the program: while a goroutine has reported the exclusive side, no other goroutine
+    has reported any side. -/
+theorem gateprog_exec_gate_exclusive (sch : List (GateProg.Tid × GateProg.Choice)) (g : GateProg.Tid)
+    (hx : ((GateProg.run {} sch).1.loc g).held = some .x ∧ ((GateProg.run {} sch).1.loc g).rep = true)
+    (g' : GateProg.Tid) (h' : ((GateProg.run {} sch).1.loc g').held.isSome = true ∧ ((GateProg.run {} sch).1.loc g').rep = true) :
+    g' = g := by
+  obtain ⟨gs, h, _, hr⟩ := GateProg.reach_inv sch
+  have hX : gs.holdsX g = true := holdsX_iff.2 ((hr.2.2 g .x).2 hx)
+  have hal := exec_gate_exclusive _ gs h g hX
+  obtain ⟨m, hm⟩ := Option.isSome_iff_exists.1 h'.1
+  have := (hr.2.2 g' m).2 ⟨hm, h'.2⟩
+  rw [hal] at this
+  simp only [List.mem_singleton, Prod.mk.injEq] at this
+  exact this.1
+
+/-- … and directly on the mutex: a goroutine that holds execMu exclusively (reported or not yet) is its only holder. -/
+theorem gateprog_writer_alone (sch : List (GateProg.Tid × GateProg.Choice)) (g : GateProg.Tid)
+    (hx : ((GateProg.run {} sch).1.loc g).held = some .x) : (GateProg.run {} sch).1.sh.execMu = [(g, .x)] := by
+  have hi := gateprog_invariant sch
+  exact hi.xalone _ ((hi.mu g .x).2 hx) rfl
+
+/-- `exec_section_isolated_trace` for the program: from a configuration in which `g` is inside EXEC's section, in
+    every continuation of the schedule, as long as `g` does not report leaving, every keyspace step the program takes
+    is `g`'s own or an embedded caller's. -/
+theorem gateprog_exec_section_isolated_trace (pre seg : List (GateProg.Tid × GateProg.Choice)) (g : GateProg.Tid)
+    (hx : ((GateProg.run {} pre).1.loc g).held = some .x ∧ ((GateProg.run {} pre).1.loc g).rep = true)
+    (hn : Ev.gout g ∉ (GateProg.run (GateProg.run {} pre).1 seg).2) :
+    ∃ gs, Gate.run {} (GateProg.run {} pre).2 = some gs ∧
+      (Gate.run gs (GateProg.run (GateProg.run {} pre).1 seg).2).isSome = true ∧
+      SegOk g gs (GateProg.run (GateProg.run {} pre).1 seg).2 := by
+  obtain ⟨gs, h, hi, hr⟩ := GateProg.reach_inv pre
+  have hX : gs.holdsX g = true := holdsX_iff.2 ((hr.2.2 g .x).2 hx)
+  obtain ⟨gs', h', _, _⟩ := GateProg.sim_run seg _ gs hi hr
+  exact ⟨gs, h, by rw [h']; rfl, exec_section_isolated_trace _ _ gs h g hX hn⟩
+
+/-- the pcs of `exec` between its entry and its deferred reset -/
+def inExecHandler : GateProg.Pc → Bool
+  | .e1 | .e3 | .e4 | .e5 | .e6 | .ec1 | .ec2 | .edef => true
+  | _ => false
+
+/-- `watch_check_and_bodies_inside_section` for the program: at every pc of `exec` - the scan of the watch flags
+    (e3), its report (e4), the loop over the queued closures (e5, e6), the deferred commit and reset - the goroutine
+    holds execMu exclusively, has reported it, and is the only holder. -/
+theorem gateprog_watch_check_and_bodies_inside_section (sch : List (GateProg.Tid × GateProg.Choice)) (g : GateProg.Tid)
+    (hpc : inExecHandler ((GateProg.run {} sch).1.loc g).pc = true) :
+    ((GateProg.run {} sch).1.loc g).held = some .x ∧ ((GateProg.run {} sch).1.loc g).rep = true ∧
+    (GateProg.run {} sch).1.sh.execMu = [(g, .x)] := by
+  have hi := gateprog_invariant sch
+  have hok := hi.ok g
+  have hh : ((GateProg.run {} sch).1.loc g).held = some .x ∧ ((GateProg.run {} sch).1.loc g).rep = true := by
+    generalize (GateProg.run {} sch).1.loc g = l at *
+    generalize ((GateProg.run {} sch).1.sh.conn g).commit = cm at *
+    cases h : l.pc <;> simp [h, inExecHandler] at hpc <;>
+      simp_all [GateProg.ok, GateProg.frame, GateProg.cmdGate, GateProg.gateIs] <;>
+      (obtain ⟨⟨_, hg⟩, hc⟩ := hok; rw [hc] at hg; simpa using hg)
+  exact ⟨hh.1, hh.2, gateprog_writer_alone sch g hh.1⟩
+
+/-- the queued closures run inside the section too: a body run by EXEC's loop holds the exclusive side -/
+theorem gateprog_queued_bodies_inside_section (sch : List (GateProg.Tid × GateProg.Choice)) (g : GateProg.Tid)
+    (hctx : ((GateProg.run {} sch).1.loc g).ctx = .execLoop)
+    (hpc : ((GateProg.run {} sch).1.loc g).pc = .b1 ∨ ((GateProg.run {} sch).1.loc g).pc = .b2 ∨
+           ((GateProg.run {} sch).1.loc g).pc = .g2 ∨ ((GateProg.run {} sch).1.loc g).pc = .b3) :
+    (GateProg.run {} sch).1.sh.execMu = [(g, .x)] := by
+  have hi := gateprog_invariant sch
+  have hok := hi.ok g
+  apply gateprog_writer_alone sch g
+  generalize (GateProg.run {} sch).1.loc g = l at *
+  generalize ((GateProg.run {} sch).1.sh.conn g).commit = cm at *
+  rcases hpc with h | h | h | h <;> simp_all [GateProg.ok, GateProg.bodyOk, GateProg.gateIs]
+
+end gateprog
 
 end NodisVerif.C08
